@@ -12,6 +12,7 @@ import (
 	"reflect"
 	"sort"
 	"strings"
+	"sync"
 	"time"
 	"unsafe"
 
@@ -23,6 +24,7 @@ import (
 
 	"github.com/ucan-wg/go-ucan/did"
 	"github.com/ucan-wg/go-ucan/pkg/args"
+	"github.com/ucan-wg/go-ucan/pkg/meta"
 	"github.com/ucan-wg/go-ucan/pkg/policy"
 	"github.com/ucan-wg/go-ucan/pkg/policy/literal"
 	"github.com/ucan-wg/go-ucan/token/delegation"
@@ -54,7 +56,9 @@ func (v Variant) String() string {
 // Variants enumerates every insertion order of 0..3 keys, constructed and decoded.
 func Variants() []Variant {
 	var res []Variant
-	orders := [][]string{{}, {"a"}, {"a", "b"}, {"b", "a"}, {"a", "b", "c"}, {"a", "c", "b"}, {"b", "a", "c"}, {"b", "c", "a"}, {"c", "a", "b"}, {"c", "b", "a"}}
+	// (the last two: inserted in lexicographic order, a longer key before a shorter one - the DAG-CBOR
+	// key order, length first, differs from both the insertion and the lexicographic order)
+	orders := [][]string{{}, {"a"}, {"a", "b"}, {"b", "a"}, {"a", "b", "c"}, {"a", "c", "b"}, {"b", "a", "c"}, {"b", "c", "a"}, {"c", "a", "b"}, {"c", "b", "a"}, {"aaa", "bb", "c"}, {"headers", "uri"}}
 	for _, dec := range []bool{false, true} {
 		for _, o := range orders {
 			res = append(res, Variant{Keys: o, Decoded: dec})
@@ -79,18 +83,49 @@ func synthCid(label string) cid.Cid {
 
 var fixedNonce = []byte("c20-nonce-0123456")
 
+// EncKey / OtherKey: the key of the invocation's encrypted metadata entry, and another valid key.
+var EncKey = bytes.Repeat([]byte{0x5e}, 32)
+var OtherKey = bytes.Repeat([]byte{0x3c}, 32)
+
+var (
+	secretMu sync.Mutex
+	secretCt = map[string][]byte{}
+)
+
+// secretCiphertext is the stored ciphertext of the invocation's encrypted metadata entry: encrypted once
+// per variant and process (the nonce is random, and every fixture of a variant must equal every other
+// one); different variants carry different ciphertexts, so that nothing keyed on a ciphertext is shared
+// between the baselines of two variants.
+func secretCiphertext(v Variant) []byte {
+	secretMu.Lock()
+	defer secretMu.Unlock()
+	ct, ok := secretCt[v.String()]
+	if !ok {
+		m := meta.NewMeta()
+		if err := m.AddEncrypted("secret", "c20 secret plaintext 0123456789", EncKey); err != nil {
+			panic(err)
+		}
+		ct, _ = m.GetBytes("secret")
+		secretCt[v.String()] = ct
+	}
+	return append([]byte{}, ct...)
+}
+
 // NewFixture builds a fresh, equal set of tokens for a variant.
 func NewFixture(v Variant) *Fixture {
 	ks := fixtures.ByAlg("ed25519")
 	root, mid, leaf := ks[0], ks[1], ks[2]
-	vals := map[string]int{"a": 1, "b": 2, "c": 3}
+	vals := map[string]int{"a": 1, "b": 2, "c": 3, "aaa": 1, "bb": 2, "headers": 7, "uri": 8}
 	// policies are built with append so that their slices have spare capacity, like policies
 	// assembled incrementally by an application: a read-only operation that appends to such a
 	// slice writes into memory shared with the token
 	withSpare := func(p policy.Policy) policy.Policy {
 		return append(make(policy.Policy, 0, len(p)+5), p...)
 	}
-	pol0 := withSpare(policy.MustConstruct(policy.Equal(".a?", literal.Int(1)), policy.Or(policy.Equal(".b?", literal.Int(2)), policy.Equal(".zz?", literal.Int(0)))))
+	// (connectives whose costlier child - a like, a quantifier, a nested connective - precedes a cheaper comparison)
+	pol0 := withSpare(policy.MustConstruct(policy.Equal(".a?", literal.Int(1)), policy.Or(policy.Equal(".b?", literal.Int(2)), policy.Equal(".zz?", literal.Int(0))),
+		policy.Or(policy.Like(".s?", "*@example.com"), policy.Any(".l?", policy.Equal(".", literal.Int(2))), policy.Equal(".a?", literal.Int(1)), policy.Not(policy.Equal(".a?", literal.Int(5)))),
+		policy.And(policy.All(".l?", policy.GreaterThan(".", literal.Int(0))), policy.Not(policy.Like(".s?", "x*")), policy.LessThan(".a?", literal.Int(9)))))
 	// (a negative slice bound: resolving it against lists of different lengths must not rebase the parsed selector)
 	pol1 := withSpare(policy.MustConstruct(policy.LessThanOrEqual(".c?", literal.Int(3)), policy.Any(".l?[-2:]", policy.GreaterThan(".", literal.Int(0))), policy.Equal(".l?[-1]", literal.Int(3))))
 	mk := func(iss, aud *fixtures.Key, pol policy.Policy) *delegation.Token {
@@ -128,7 +163,7 @@ func NewFixture(v Variant) *Fixture {
 	for _, k := range v.Keys {
 		opts = append(opts, invocation.WithArgument(k, vals[k]), invocation.WithMeta(k, "m-"+k))
 	}
-	opts = append(opts, invocation.WithArgument("l", []int{1, 2, 3}))
+	opts = append(opts, invocation.WithArgument("l", []int{1, 2, 3}), invocation.WithMeta("secret", secretCiphertext(v)))
 	inv, err := invocation.New(leaf.DID, root.DID, "/a", f.Cids, opts...)
 	if err != nil {
 		panic(err)
@@ -165,10 +200,17 @@ func (l loader) GetDelegation(c cid.Cid) (*delegation.Token, error) {
 type seamWriter struct {
 	buf  bytes.Buffer
 	seam Seam
+	n    int
 }
 
+// Write is a scheduling point for the first 12 writes of a stream and for every 24th after that (the
+// DAG-JSON encoder issues several hundred tiny writes per token; a point at each of them squares the
+// number of schedules without reaching any new state of the encoder).
 func (w *seamWriter) Write(p []byte) (int, error) {
-	point(w.seam)
+	w.n++
+	if w.n <= 12 || w.n%24 == 0 {
+		point(w.seam)
+	}
 	return w.buf.Write(p)
 }
 
@@ -330,6 +372,19 @@ func Ops() []Op {
 			// queries about instants after the expiration and long before now
 			far := time.Date(2400, 1, 1, 0, 0, 0, 0, time.UTC)
 			return fmt.Sprint(f.Dlgs[0].IsValidAt(far), f.Dlgs[1].IsValidAt(far), f.Dlgs[0].IsValidAt(time.Unix(0, 0)), f.Dlgs[1].IsValidNow(), f.Inv.IsValidAt(far))
+		}},
+		{"inv.Meta.GetEncrypted(other key)", func(f *Fixture, s Seam) string {
+			// (listed before the right-key operation: baselines are taken in this order on a fresh process)
+			v, err := f.Inv.Meta().GetEncryptedString("secret", OtherKey)
+			b, err2 := f.Inv.Meta().GetEncryptedBytes("secret", OtherKey)
+			if err != nil && err2 != nil {
+				return "refused"
+			}
+			return "READ WITH ANOTHER KEY: " + v + string(b)
+		}},
+		{"inv.Meta.GetEncryptedString(right key)", func(f *Fixture, s Seam) string {
+			v, err := f.Inv.Meta().GetEncryptedString("secret", EncKey)
+			return v + errStr(err)
 		}},
 		{"inv.ExecutionAllowedWithArgsHook(longer-list)", func(f *Fixture, s Seam) string {
 			// the same shared policies evaluated against a list of another length
